@@ -92,11 +92,18 @@ WordsOf(bs) == [i \in 1..(Len(bs) \div 4) |->
 BytesOf(ws) == [i \in 1..(4 * Len(ws)) |-> ByteOf(ws[((i-1) \div 4) + 1], (i-1) % 4)]
 
 (* Byte-level wrappers (ArchiveBuilder::encrypt_data / decrypt_file_data): the full dwords are   *)
-(* processed as one block; a tail of r = len mod 4 bytes is zero-padded to a dword, processed as *)
-(* a one-word block with key + (number of full dwords), and only r bytes are written back.       *)
+(* processed as one block; the trailing r = len mod 4 bytes stay in the clear, as the published  *)
+(* cipher (which works on whole dwords only) leaves them.                                        *)
+(* Named deviation TailKeyed (the library before fix d86b8d5): the tail was zero-padded to a     *)
+(* dword, processed as a one-word block with key + (number of full dwords), r bytes written back.*)
 TailBytes(bs)  == SubSeq(bs, 4 * (Len(bs) \div 4) + 1, Len(bs))
 Pad4(t)   == t \o [i \in 1..(4 - Len(t)) |-> 0]
 XcryptBytes(bs, k, Blk(_,_)) ==
+  IF Len(bs) = 0 \/ k = WZero THEN bs
+  ELSE LET n    == Len(bs) \div 4
+           full == BytesOf(Blk(WordsOf(SubSeq(bs, 1, 4*n)), k))
+       IN  full \o TailBytes(bs)
+XcryptBytesTailKeyed(bs, k, Blk(_,_)) ==
   IF Len(bs) = 0 \/ k = WZero THEN bs
   ELSE LET n    == Len(bs) \div 4
            full == BytesOf(Blk(WordsOf(SubSeq(bs, 1, 4*n)), k))
